@@ -116,6 +116,13 @@ def f1_effects(ctx):
             why = 'no guard establishing that the file is absent'
             if name == 'spike_clusters.npy':
                 for kind, br, node, gfi in gs:
+                    if kind == 'if' and br in (False, 'after-exit'):
+                        # in the else branch / after `if <test>: return`: the negation of the test holds
+                        test0 = node.test if isinstance(node, ast.If) else node
+                        c0 = q.simple_compare(test0)
+                        if c0 and c0[1] == 'is not' and const_value(c0[2]) is None:
+                            node = ast.copy_location(ast.Compare(left=c0[0], ops=[ast.Is()], comparators=[ast.Constant(value=None)]), test0)
+                            br = True
                     if kind == 'if' and br is True:
                         c = q.simple_compare(node.test) if isinstance(node, ast.If) else q.simple_compare(node)
                         test = node.test if isinstance(node, ast.If) else node
